@@ -1186,6 +1186,57 @@ def fn_linear_thorough(items):
 
 
 # ---------------------------------------------------------------- legs
+
+def fn_trace_bign(items):
+    """item = [N]: trace() of every string x 4 phases at N=3,4 as Pauli, PauliMonomial, PauliList and
+    PauliPolynomial (2^N differs from 2N only for N>=3).  The pinned phase-ignoring behaviour of pyclifford
+    keeps its known-finding signature; any other wrong value is reported."""
+    from ..core import V
+    n = nt = 0
+    viol = []
+    pool = [2.5, -0.5, 1j, 1 + 2j]
+    for (N,) in items:
+        G = ref.all_g(N)
+        d = 2 ** N
+        for k, g in enumerate(G):
+            ident = not g.any()
+            for p in range(4):
+                c = pool[(k + p) % 4]
+                cases = [('Pauli', lib.P(g, p), (1j ** p) * d if ident else 0, d if ident else 0),
+                         ('PauliMonomial', lib.MONO(g, p, c), c * (1j ** p) * d if ident else 0, c * d if ident else 0)]
+                for cls, obj, truth, ignored in cases:
+                    got = complex(obj.trace())
+                    n += 1
+                    nt += int(ident)
+                    if abs(got - truth) < 1e-9:
+                        continue
+                    if p != 0 and abs(got - ignored) < 1e-9:
+                        viol.append(V('C15/trace/py/phase-ignored/%s' % cls, [N], 'trace(%s %s) = %s, matrix trace %s (phase indicator ignored)' % (cls, ref.g_to_str(g, p), got, truth)))
+                    else:
+                        viol.append(V('C15/trace/py/value/%s' % cls, [N], 'N=%d: trace(%s %s) = %s, matrix trace is %s' % (N, cls, ref.g_to_str(g, p), got, truth), str(got), str(truth)))
+        # list and polynomial over the whole group
+        Gs = np.concatenate([G] * 4)
+        Ps = np.repeat(np.arange(4), len(G))
+        cs = np.array([pool[i % 4] for i in range(len(Gs))])
+        idm = ~Gs.any(axis=1)
+        lt = np.asarray(lib.PL(Gs, Ps).trace()).astype(complex)
+        truth = np.where(idm, (1j ** Ps) * d, 0)
+        ign = np.where(idm, d, 0).astype(complex)
+        n += len(Gs)
+        if not np.allclose(lt, truth):
+            if np.allclose(lt, ign):
+                viol.append(V('C15/trace/py/phase-ignored/PauliList', [N], 'PauliList.trace ignores the phase indicator (N=%d)' % N))
+            else:
+                viol.append(V('C15/trace/py/value/PauliList', [N], 'N=%d: PauliList.trace differs from the matrix traces' % N))
+        pt = complex(lib.POLY(Gs, Ps, cs).trace())
+        n += 1
+        if abs(pt - (cs * truth).sum()) > 1e-9:
+            if abs(pt - (cs * ign).sum()) < 1e-9:
+                viol.append(V('C15/trace/py/phase-ignored/PauliPolynomial', [N], 'PauliPolynomial.trace ignores the phase indicator (N=%d)' % N))
+            else:
+                viol.append(V('C15/trace/py/value/PauliPolynomial', [N], 'N=%d: PauliPolynomial.trace = %s, matrix trace %s' % (N, pt, (cs * truth).sum())))
+    return {'n': n, 'nt': nt, 'viol': viol}
+
 def legs(tier):
     quick = tier == 'quick'
     out = []
@@ -1228,4 +1279,5 @@ def legs(tier):
                    bound='torchclifford N in %s, pool of %d atoms (no PauliMonomial in torch): depth-2 trees as in trees_py' % (tNs, nto)))
     out.append(Leg('linear_torch', fn_linear, [['torch', N, s] for N in (1, 2) for s in range(len(linear_subjects(N, 'torch')))], chunk=1,
                    bound='torchclifford N<=2: as linear_py with the quick map menu'))
+    out.append(Leg('trace_N3_N4', fn_trace_bign, [[3], [4]], chunk=1, bound='trace() of all strings x 4 phases at N=3,4 as Pauli / PauliMonomial / PauliList / PauliPolynomial (2^N vs 2N differ from N=3 on)'))
     return out
